@@ -58,6 +58,15 @@ def origin_key(origin: Any) -> str:
 def children_of(o: Any) -> list[tuple[str, int | None, Any]]:
     """Child positions of a node by the universe TABLE (falsy children included)."""
     out: list[tuple[str, int | None, Any]] = []
+    if cname(o) not in U.CLS:
+        # a node class outside the universe (e.g. the library's synthetic xpath root that took over an id)
+        for df in dataclasses.fields(o):
+            v = getattr(o, df.name)
+            if isinstance(v, ASTNode):
+                out.append((df.name, None, v))
+            elif isinstance(v, tuple) and v and all(isinstance(x, ASTNode) for x in v):
+                out.extend((df.name, i, x) for i, x in enumerate(v))
+        return out
     for f in U.CHILD_FIELDS.get(cname(o), ()):
         v = getattr(o, f.name)
         if f.kind in ("tuple", "fixed"):
@@ -127,6 +136,8 @@ def spec_nodes(spec: Any) -> int:
 def spec_of(o: Any) -> dict[str, Any]:
     """Harness-side description of an existing tree (no refs), from its real field values."""
     cls = cname(o)
+    if cls not in U.FIELDS:
+        raise SkipOp("not a universe class (a library-internal node took over an id)")
     p = {}
     for f in U.PROP_FIELDS[cls]:
         if f.init:
@@ -231,9 +242,9 @@ class World:
         i = self.inf(o)
         if i.key is None:
             cls = i.cls
-            props = sorted((f.name, U.canon(getattr(o, f.name))) for f in U.PROP_FIELDS[cls] if f.compare)
+            props = sorted((f.name, U.canon(getattr(o, f.name))) for f in U.PROP_FIELDS.get(cls, ()) if f.compare)
             ch = []
-            for f in U.CHILD_FIELDS[cls]:
+            for f in U.CHILD_FIELDS.get(cls, ()):
                 v = getattr(o, f.name)
                 if f.kind in ("tuple", "fixed"):
                     ch.append((f.name, [self.key(c) for c in v]))
@@ -246,7 +257,7 @@ class World:
         i = self.inf(o)
         if i.idkey is None:
             cls = i.cls
-            props = sorted((f.name, U.canon(getattr(o, f.name))) for f in U.PROP_FIELDS[cls] if f.compare)
+            props = sorted((f.name, U.canon(getattr(o, f.name))) for f in U.PROP_FIELDS.get(cls, ()) if f.compare)
             ch = [(f, idx, self.key(c), origin_key(c.origin)) for f, idx, c in children_of(o)]
             i.idkey = fp(cls, i.okey, repr(props), ch)
         return i.idkey
@@ -431,7 +442,7 @@ class World:
             t = type(o)
             if t.get(o.id) is not o:
                 raise self.viol("C03.5 get-own-class", f"C03.5:own:{kind}", f"{i.cls}.get(id) does not return the registered node {i.name}")
-            mro = U.MRO[i.cls]
+            mro = U.MRO.get(i.cls, [i.cls])
             if len(mro) > 1:
                 sup = U.CLS[mro[1]]
                 if sup.get(o.id) is not None:
